@@ -29,6 +29,7 @@ var properties = map[string][]harnessSpec{
 		{Name: "note.VerifC15SemitoneUnbounded", Solver: "cvc5-int", Marks: end, MustTerminate: true},
 	},
 	"C01": {
+		{Name: "chord.VerifC16LookupHistory", Quick: map[string]int{"C16.history": 2}, Thorough: map[string]int{"C16.history": 3}, Marks: end},
 		{Name: "cmd.VerifC01FlagOverride", Marks: end},
 		{Name: "play.VerifC01WriteSequence", Quick: map[string]int{"C01.maxInstances": 2}, Thorough: map[string]int{"C01.maxInstances": 3}, Marks: end},
 		{Name: "play.VerifC01Pitch", Quick: map[string]int{"C01.mode": 1, "C01.maxDegree": 15}, Thorough: map[string]int{"C01.mode": 0, "C01.maxDegree": 15}, Marks: []string{"end", "rejected", "same-order"}},
@@ -75,6 +76,7 @@ var properties = map[string][]harnessSpec{
 		{Name: "cmd.VerifC09WriteConv", Marks: []string{"end", "converted", "refused"}},
 	},
 	"C16": {
+		{Name: "chord.VerifC16LookupHistory", Quick: map[string]int{"C16.history": 2}, Thorough: map[string]int{"C16.history": 3}, Marks: end},
 		{Name: "chord.VerifC16Builtins", Marks: end},
 		{Name: "chord.VerifC16AttrNames", Marks: end},
 		{Name: "chord.VerifC16UserDict", Quick: map[string]int{"C16.maxUser": 2}, Thorough: map[string]int{"C16.maxUser": 3}, Marks: []string{"end", "rejected", "accepted"}, MustTerminate: true},
